@@ -343,7 +343,7 @@ fn rng_fault_pass(c: &mut Ctx, m: &'static Merchant, log: &[LogEntry], chans: &[
     }
 }
 
-fn run_group(c: &mut Ctx, m: &'static Merchant, name: &str, nchan: usize, rounds: usize) {
+fn run_group(c: &mut Ctx, m: &'static Merchant, name: &str, nchan: usize, rounds: usize, hostile: bool) {
     let mut rng = c.rng(name);
     let mut log: Vec<LogEntry> = vec![];
     let mut chans: Vec<Chan> = vec![];
@@ -378,6 +378,13 @@ fn run_group(c: &mut Ctx, m: &'static Merchant, name: &str, nchan: usize, rounds
         let (cust, merch, ctxb) = inits[ch].clone();
         match advance(c, &mut log, ch, &mut chans[ch], &mut rng, &ctxb, cust, merch) {
             Ok(_) => {}
+            Err(_) if hostile => {
+                // a hostile merchant need not complete anything: what the customer already sent is in
+                // its view and is judged below
+                c.count("hostile_merchant_sessions_cut_short", 1);
+                chans[ch].closed = true;
+                continue;
+            }
             Err(e) => return c.inconclusive(&format!("C14: honest step failed ({}) — C04's subject", e)),
         }
     }
@@ -446,7 +453,7 @@ pub fn run(c: &mut Ctx) {
                         Ok(f) => {
                             let f: &'static Merchant = Box::leak(Box::new(f));
                             let name = format!("hostile-parameters/{}", what);
-                            if let Err(p) = guard(|| run_group(c, f, &name, 2, 24)) {
+                            if let Err(p) = guard(|| run_group(c, f, &name, 2, 24, true)) {
                                 c.count(&format!("hostile_parameters_run_panicked[{}]", repo_rel(&p.location)), 1);
                             }
                         }
@@ -462,7 +469,7 @@ pub fn run(c: &mut Ctx) {
         let name = format!("group{}", g);
         c.case(&name, |c| {
             let nchan = 2 + g % 3;
-            if let Err(p) = guard(|| run_group(c, m, &name, nchan, rounds)) {
+            if let Err(p) = guard(|| run_group(c, m, &name, nchan, rounds, false)) {
                 c.violation(&format!("C14 panic loc={}", repo_rel(&p.location)), json!({"panic": p.message}));
             }
         });
